@@ -316,27 +316,48 @@ impl Prng {
 
 // ---------------------------------------------------------------------------------------------
 // I/O
+type SharedW = std::sync::Arc<std::sync::Mutex<BufWriter<Box<dyn Write + Send>>>>;
+/// every open record file, so that the watchdog can flush complete lines before it ends the process
+static OUTS: std::sync::Mutex<Vec<SharedW>> = std::sync::Mutex::new(Vec::new());
 pub struct Out {
-    w: BufWriter<Box<dyn Write>>,
+    w: SharedW,
     pub lines: u64,
 }
 impl Out {
     pub fn create(path: &str) -> Self {
-        let f: Box<dyn Write> = if path == "-" {
+        let f: Box<dyn Write + Send> = if path == "-" {
             Box::new(std::io::stdout())
         } else {
             Box::new(std::fs::File::create(path).unwrap_or_else(|e| panic!("create {}: {}", path, e)))
         };
-        Out { w: BufWriter::with_capacity(1 << 20, f), lines: 0 }
+        let w: SharedW = std::sync::Arc::new(std::sync::Mutex::new(BufWriter::with_capacity(1 << 20, f)));
+        OUTS.lock().unwrap().push(w.clone());
+        Out { w, lines: 0 }
     }
     pub fn put(&mut self, v: &Value) {
-        serde_json::to_writer(&mut self.w, v).unwrap();
-        self.w.write_all(b"\n").unwrap();
+        let mut w = self.w.lock().unwrap();
+        serde_json::to_writer(&mut *w, v).unwrap();
+        w.write_all(b"\n").unwrap();
         self.lines += 1;
+        tick();
     }
     pub fn flush(&mut self) {
-        self.w.flush().unwrap();
+        self.w.lock().unwrap().flush().unwrap();
     }
+}
+fn flush_all_outs() {
+    if let Ok(outs) = OUTS.try_lock() {
+        for w in outs.iter() {
+            if let Ok(mut g) = w.try_lock() {
+                let _ = g.flush();
+            }
+        }
+    }
+}
+/// Heartbeat: every record written, every guarded call and every noted call counts as progress.
+pub static PROGRESS: AtomicU64 = AtomicU64::new(0);
+pub fn tick() {
+    PROGRESS.fetch_add(1, Ordering::Relaxed);
 }
 /// Lines of a TLC output file that carry `PrintT(ToJson(..))` payloads (a JSON-escaped TLA+
 /// string, hence decoded twice), or plain ndjson.
@@ -388,6 +409,7 @@ pub fn install_panic_hook() {
 }
 /// Run `f`; Err(message) if it panicked.
 pub fn guarded<T>(f: impl FnOnce() -> T) -> Result<T, String> {
+    tick();
     CALL_STARTED_MS.store(now_ms(), Ordering::SeqCst);
     IN_GUARD.with(|g| *g.borrow_mut() = true);
     let r = catch_unwind(AssertUnwindSafe(f));
@@ -395,25 +417,41 @@ pub fn guarded<T>(f: impl FnOnce() -> T) -> Result<T, String> {
     CALL_STARTED_MS.store(0, Ordering::SeqCst);
     r.map_err(|_| LAST_PANIC.with(|p| p.borrow().clone()))
 }
-/// Watchdog: if one guarded call runs longer than `limit_ms`, append a `hang` record to
-/// `hang_path` and leave the process with exit code 0 (the record is judged like any other).
+/// Watchdog: if one guarded call runs longer than `limit_ms`, or the whole harness makes no progress (no
+/// record written, no guarded call started, no call noted) for `6 * limit_ms` - a call of the code under
+/// test made outside `guarded`, e.g. a query of the observation, does not return -, append a `hang`
+/// record to `hang_path`, flush the record files and leave the process with exit code 0 (the record is
+/// judged like any other).
 pub fn start_watchdog(limit_ms: u64, hang_path: String, structure: &'static str) {
-    std::thread::spawn(move || loop {
-        std::thread::sleep(std::time::Duration::from_millis(200));
-        let st = CALL_STARTED_MS.load(Ordering::SeqCst);
-        if st != 0 && now_ms().saturating_sub(st) > limit_ms {
-            let rec = json!({"k":"hang","s":structure,"tid":CALL_TID.load(Ordering::SeqCst),
-                             "cur": CUR_CALL.with(|_| Value::Null), "note": HANG_NOTE.lock().unwrap().clone()});
-            let mut f = std::fs::OpenOptions::new().create(true).append(true).open(&hang_path).unwrap();
-            writeln!(f, "{}", rec).unwrap();
-            eprintln!("HANG: call did not return within {} ms: {}", limit_ms, rec);
-            std::process::exit(0);
+    std::thread::spawn(move || {
+        let mut last_progress = PROGRESS.load(Ordering::Relaxed);
+        let mut last_change = now_ms();
+        loop {
+            std::thread::sleep(std::time::Duration::from_millis(200));
+            let st = CALL_STARTED_MS.load(Ordering::SeqCst);
+            let p = PROGRESS.load(Ordering::Relaxed);
+            if p != last_progress {
+                last_progress = p;
+                last_change = now_ms();
+            }
+            let call_hangs = st != 0 && now_ms().saturating_sub(st) > limit_ms;
+            let stalled = now_ms().saturating_sub(last_change) > 6 * limit_ms;
+            if call_hangs || stalled {
+                let rec = json!({"k":"hang","s":structure,"tid":CALL_TID.load(Ordering::SeqCst), "in_call": call_hangs,
+                                 "cur": CUR_CALL.with(|_| Value::Null), "note": HANG_NOTE.lock().unwrap().clone()});
+                let mut f = std::fs::OpenOptions::new().create(true).append(true).open(&hang_path).unwrap();
+                writeln!(f, "{}", rec).unwrap();
+                eprintln!("HANG: the code under test did not return within {} ms: {}", if call_hangs { limit_ms } else { 6 * limit_ms }, rec);
+                flush_all_outs();
+                std::process::exit(0);
+            }
         }
     });
 }
 thread_local! { pub static CUR_CALL: RefCell<Value> = RefCell::new(Value::Null); }
 pub static HANG_NOTE: std::sync::Mutex<Value> = std::sync::Mutex::new(Value::Null);
 pub fn note_call(v: Value) {
+    tick();
     *HANG_NOTE.lock().unwrap() = v;
 }
 
